@@ -6,6 +6,7 @@ import (
 	"path/filepath"
 	"strings"
 	"sync"
+	"sync/atomic"
 
 	"go.lsp.dev/protocol"
 	"go.lsp.dev/uri"
@@ -42,6 +43,8 @@ type Server struct {
 	diagMu       sync.Mutex
 	diagVersions map[protocol.DocumentURI]uint64
 	publishMu    sync.Mutex
+	// treeEpoch advances whenever a file was saved; stored include trees of an older epoch are stale
+	treeEpoch atomic.Uint64
 }
 
 func NewServer() *Server {
@@ -231,11 +234,11 @@ func (s *Server) ApplyContentChanges(ctx context.Context, docURI protocol.Docume
 		}
 		s.documents.Store(docURI, content)
 		s.payeeTemplatesCache.Delete(docURI)
-		if s.workspace != nil {
-			if path := uriToPath(docURI); path != "" {
+		if path := uriToPath(docURI); path != "" {
+			if s.workspace != nil {
 				s.workspace.UpdateFile(path, content)
-				s.loader.InvalidateFile(path)
 			}
+			s.loader.InvalidateFile(path)
 		}
 		version := s.nextDiagnosticsVersion(docURI)
 		go s.publishDiagnosticsVersion(ctx, docURI, content, version)
@@ -258,15 +261,18 @@ func (s *Server) DidClose(ctx context.Context, params *protocol.DidCloseTextDocu
 func (s *Server) DidSave(ctx context.Context, params *protocol.DidSaveTextDocumentParams) error {
 	s.payeeTemplatesCache.Delete(params.TextDocument.URI)
 
-	if s.workspace != nil {
-		if path := uriToPath(params.TextDocument.URI); path != "" {
+	if path := uriToPath(params.TextDocument.URI); path != "" {
+		if s.workspace != nil {
 			if content, ok := s.GetDocument(params.TextDocument.URI); ok {
 				s.workspace.UpdateFile(path, content)
 			} else if data, err := os.ReadFile(path); err == nil {
 				s.workspace.UpdateFile(path, string(data))
 			}
-			s.loader.InvalidateFile(path)
 		}
+		// the file on disk changed: forget its cached parse and the include trees of all
+		// documents (any of them may include it), also when there is no workspace
+		s.loader.InvalidateFile(path)
+		s.treeEpoch.Add(1)
 	}
 	return nil
 }
@@ -333,10 +339,11 @@ func (s *Server) publishDiagnosticsVersion(ctx context.Context, docURI protocol.
 	if path == "" {
 		return
 	}
+	epoch := s.treeEpoch.Load()
 	resolved, loadErrors := s.loader.LoadFromContent(path, content)
 	verifhook.At("diag.loaded", string(docURI))
 	if !s.ifLatestDiagnostics(docURI, version, func() {
-		s.resolved.Store(docURI, &resolvedEntry{version: version, journal: resolved})
+		s.resolved.Store(docURI, &resolvedEntry{version: version, epoch: epoch, journal: resolved})
 	}) {
 		return
 	}
@@ -526,6 +533,7 @@ func uriToPath(docURI protocol.DocumentURI) string {
 // (document version) it was computed from.
 type resolvedEntry struct {
 	version uint64
+	epoch   uint64 // Server.treeEpoch when resolving started
 	journal *include.ResolvedJournal
 }
 
@@ -538,14 +546,15 @@ func (s *Server) GetResolved(docURI protocol.DocumentURI) *include.ResolvedJourn
 		stored, _ = r.(*resolvedEntry)
 	}
 	version := s.currentDiagnosticsVersion(docURI)
-	if stored != nil && stored.version == version {
+	epoch := s.treeEpoch.Load()
+	if stored != nil && stored.version == version && stored.epoch == epoch {
 		return stored.journal
 	}
 	if doc, ok := s.GetDocument(docURI); ok && version != 0 {
 		if path := uriToPath(docURI); path != "" {
 			resolved, _ := s.loader.LoadFromContent(path, doc)
 			s.ifLatestDiagnostics(docURI, version, func() {
-				s.resolved.Store(docURI, &resolvedEntry{version: version, journal: resolved})
+				s.resolved.Store(docURI, &resolvedEntry{version: version, epoch: epoch, journal: resolved})
 			})
 			return resolved
 		}
